@@ -225,14 +225,34 @@ def tap(log, tag=None, states=None):
     return _tap
 
 
-def store_snapshot(store):
-    """Canonical snapshot of every array of every state of a StoreManager."""
+def _obj_snapshot(o):
+    """Every data field of an object, generically (survives renamed / added fields)."""
+    try:
+        d = vars(o)
+    except TypeError:
+        return repr(o)
     out = []
-    for st in getattr(store, 'states', []) or []:
-        for s in st.states:
-            out.append((repr(s.data_type), list(s.state), [repr(v) for v in s.values],
-                        [repr(k) for k in s.keys], getattr(s, 'next_index', None)))
-    return repr(out)
+    for k in sorted(d):
+        v = d[k]
+        if callable(v):
+            continue
+        if isinstance(v, array):
+            v = list(v)
+        out.append((k, repr(v)))
+    return out
+
+
+def store_snapshot(store):
+    """Canonical snapshot of every field of every state of a StoreManager (used only to COUNT distinct
+    implementation states; never part of an oracle, so it must not fail on a refactored store)."""
+    try:
+        out = []
+        for st in getattr(store, 'states', None) or []:
+            for s in getattr(st, 'states', None) or []:
+                out.append(_obj_snapshot(s))
+        return repr(out)
+    except Exception:
+        return 'snapshot-unavailable'
 
 
 def lifetimes(log):
